@@ -590,6 +590,15 @@ func (ch c10) runCase(c *core.Ctx, envPlain, envAuth *hs.Env, k c10case, idx int
 	}
 	// "the message after it is processed normally": in half of the oversized cases the next message
 	// follows at once, with no Sync in between (not while the server is already discarding until Sync)
+	if over && idx%3 == 0 {
+		// the client stays silent for a long while after the oversized message (virtual time: a read
+		// deadline left pending by the server fires); the session must simply go on afterwards
+		cl.C.Pause()
+		if _, ok := expect("a long client pause after the oversized message", nil, ""); !ok {
+			return
+		}
+		c.Count("pauses_after_oversize", 1)
+	}
 	direct := over && k.Pos != "skipping" && idx%2 == 0
 	if direct && k.Pos == "batch" && idx%4 == 0 {
 		// the statement prepared before the oversized message is still there and can be described
